@@ -467,8 +467,16 @@ def run(ctx):
                        regular=len(set(dict(G.degree()).values())) == 1,
                        depleting=(gamma == 0 or tau / gamma >= 10))
             ctx.count("%s:%s" % (name.replace("_from_graph", ""), style))
+            # node-level entry points: an explicit nodelist (a permutation of the nodes) together with rho / the default is a
+            # consistent initial condition too (fixed in /repo 19d1024: the pair-based solvers crashed on it)
+            nl = None
+            if e.get("nodelevel") and style in ("rho", "default") and k % 2 == 1:
+                nl = list(G)
+                ctx.rng.shuffle(nl)
+                rep["nodelist"] = [idx[u] for u in nl]
+                ctx.count("%s:nodelist+%s" % (name, style))
             try:
-                res = odes.call(name, G, kw, tau, gamma, tmin, tmax, tcount, full, p=p)
+                res = odes.call(name, G, kw, tau, gamma, tmin, tmax, tcount, full, p=p, nodelist=nl)
             except Exception as ex:
                 ctx.case(rep, nontrivial=False)
                 import traceback
